@@ -53,3 +53,23 @@ pub(crate) fn ref_adler32(start: u32, data: &[u8]) -> u32 {
     }
     (b << 16) | a
 }
+
+/// Cheap order- and value-sensitive stand-in for crc32 (byte-wise fold, so chunked == whole like the real one).
+/// Used where the subject is *which bytes* are folded into the header checksum, not the CRC value itself.
+pub(crate) fn model_fold(start: u32, data: &[u8]) -> u32 {
+    let mut c = start;
+    let mut i = 0;
+    while i < data.len() {
+        c = c.rotate_left(5) ^ (data[i] as u32) ^ 0x9e37;
+        i += 1;
+    }
+    c
+}
+pub(crate) fn stub_crc_model(s: u32, b: &[u8]) -> u32 {
+    model_fold(s, b)
+}
+
+/// same stand-in for the braid kernel behind `Crc32Fold` (generic paths)
+pub(crate) fn stub_braid_model<const N: usize>(start: u32, data: &[u8]) -> u32 {
+    model_fold(start, data)
+}
